@@ -41,7 +41,8 @@ ANCHORS = [
     ('pjrpc/common/v20.py', 'BatchResponse.extend'),
     ('pjrpc/common/exceptions.py', 'JsonRpcError.from_json'),
 ]
-FLOORS = {'*': {
+FLOORS = {'*': {'error:deserialised-through-a-library-error-class': 300,
+                
     'request:accepted': 100, 'request:rejected': 1000, 'response:accepted': 100, 'response:rejected': 1000,
     'error:accepted': 50, 'error:rejected': 500, 'batch-request:accepted': 20, 'batch-request:rejected': 50,
     'batch-response:accepted': 20, 'batch-response:rejected': 50, 'batch:identity-error': 10,
@@ -196,6 +197,8 @@ class C6Typed(JsonRpcError):
 
 
 REGISTERED_CODES = [-32700, -32600, -32601, -32602, -32603, -32000, 76001]
+ERROR_BASES = [pjrpc.exceptions.ServerError, pjrpc.exceptions.MethodNotFoundError, pjrpc.exceptions.InvalidParamsError,
+               pjrpc.exceptions.InternalError, pjrpc.exceptions.ParseError]
 
 
 def run_error_block(ctx, code_i):
@@ -209,6 +212,17 @@ def run_error_block(ctx, code_i):
         resp = {'jsonrpc': '2.0', 'id': 1, 'error': obj}
         status, out = call(v20.Response.from_json, resp)
         judge(ctx, 'response', resp, response_invalid(resp), status, out)
+        if m in ('m', '', A) and d in (A, None):
+            # the same through the existing `error_cls=` option / classmethod of the library's own error classes: the base class
+            # the caller names decides what unregistered codes become, never whether the object is acceptable
+            for ecls in ERROR_BASES:
+                ctx.hit('error:deserialised-through-a-library-error-class')
+                status, out = call(ecls.from_json, obj)
+                judge(ctx, 'error', obj, error_invalid(obj), status, out)
+                status, out = call(v20.Response.from_json, resp, error_cls=ecls)
+                judge(ctx, 'response', resp, response_invalid(resp), status, out)
+                status, out = call(v20.BatchResponse.from_json, [resp], error_cls=ecls)
+                judge(ctx, 'batch-response', [resp], response_invalid(resp), status, out, allow_identity=True)
     ctx.exhaustive['error-product-16^3'] = True
 
 
